@@ -23,12 +23,18 @@ from ..core import Suite
 from ..suites_ops import K4Sem
 
 PROPERTY = "C21"
-LEAN_MODULES = ["DAVerif.Props.C21"]
+LEAN_MODULES = ["DAVerif.Props.C21", "DAVerif.Props.C21sql"]
 THEOREMS = ["DAVerif." + t for t in (
     "C21_rank_to_average_tree", "C21_rank_to_average", "C21_rank_to_average_view", "C21_rank_mean_closed_form",
     "C21_locf_tree", "C21_locf", "C21_locf_value_reading",
     "C21_multi_column_map_tree", "C21_multi_column_map",
     "C21_replicate_tree", "C21_replicate_partial", "C21_replicate_interp_instances",
+    # the SQLite side (Props/C21sql.lean): the generated query, under the modelled engine, returns what the helper promises
+    "C21_sql_interp_instances", "C21_rank_to_average_to_sql_total", "C21_rank_to_average_sql", "C21_rank_to_average_sqlite",
+    "C21_rank_to_average_sqlite_pandas_order", "C21_locf_sql_partial", "C21_locf_sqlite_partial",
+    "C21_locf_sqlite_pandas_order_partial", "C21_replicate_sql_partial", "C21_replicate_sqlite_partial",
+    "C21_multi_column_map_outside_sql", "C21_rank_order_null_necessary", "C21_locf_partition_null_necessary",
+    "C21_locf_order_null_necessary",
 )]
 ASSUMPTIONS = [
     "the models of the four helpers (lean/DAVerif/Solutions/*.lean) are the helpers of /repo/data_algebra/solutions.py: "
@@ -53,9 +59,11 @@ ASSUMPTIONS = [
     "(col_name_key, col_value_key) (documented preconditions of def_multi_column_map); counts in 1..max_count",
 ]
 NOT_PROVEN = [
-    "SQLite side: no kernel-checked theorem over semSql (toNearSql SqlCfg.sqlite p) for the helper pipelines (the "
-    "translation on symbolic column lists was not carried out); covered by the correspondence k5_solutions (real SQL "
-    "on SQLite = SQL model) and by the independent references of the oracle run on SQLite results for every case",
+    "SQLite side: proved for rank_to_average (no data guard; where an order key is missing SQLite sorts it first and Pandas "
+    "last, both statements given), last_observed_carried_forward (guard: no partition key missing = finding "
+    "C21-locf-null-partition, necessity proved) and replicate_rows_query (under hlog); def_multi_column_map uses convert_records, "
+    "which is outside every SQL fragment (C21_multi_column_map_outside_sql): its SQL is covered by the correspondence "
+    "k5_solutions and the oracle only",
     "last_observed_carried_forward with a missing partition key on SQLite / a Pandas join type check (finding "
     "C21-locf-null-partition); replicate_rows_query with count 0 (finding C21-replicate-zero-count); "
     "def_multi_column_map with one listed column (finding C21-multi-map-single-column): outside the theorems' "
